@@ -53,6 +53,13 @@ HAND_ITEMS = [       # a literal PUSH0 in the input (the tool's own spelling of 
 ]
 
 
+# two accesses to one storage slot / account through a zero key, one in a sub-block that is kept and one in a sub-block that is
+# rebuilt: the tool's warm/cold accounting must name the key the same way whichever way the zero push is spelled
+PINNED_TEXTS = ["PUSH0 SLOAD PUSH0 PUSH0 LOG0 PUSH0 SLOAD PUSH 3 PUSH 3 SUB ADD", "PUSH 0 SLOAD GAS POP PUSH 0 SLOAD PUSH 3 PUSH 3 SUB ADD",
+                "PUSH0 BALANCE PUSH0 PUSH0 LOG0 PUSH 0 BALANCE PUSH 1 PUSH 1 SUB ADD", "PUSH 0 SLOAD PUSH0 SLOAD ADD",
+                "DUP1 PUSH 0 SSTORE GAS POP PUSH 0 SLOAD PUSH 2 PUSH 2 SUB ADD", "PUSH 0 DUP1 SLOAD SWAP1 SLOAD ADD PUSH 0 ADD"]
+
+
 def _items(pairs):
     p = skeldoc.Pos()
     return [p.item(n, v) for n, v in pairs]
@@ -81,7 +88,7 @@ def gen_blocks(tier, seed):
         nreal = 1500
     real = [b for b in corpus.real_blocks() if any(it["name"] == "PUSH" and it.get("value") == "0" for it in b["items"])]
     real = corpus.sample(real, nreal, seed)
-    cmds = [{"cmd": "opt", "text": t, "src": t} for t in xs + sim]
+    cmds = [{"cmd": "opt", "text": t, "src": t} for t in PINNED_TEXTS + xs + sim]
     cmds += [{"cmd": "opt", "items": _items(h), "src": "items: " + " ".join(n + ("" if v is None else " " + v) for n, v in h)} for h in HAND_ITEMS]
     cmds += [{"cmd": "opt", "items": b["items"], "src": b["src"]} for b in real]
     return cmds, rs, {"enumerated": len(xs), "simulated": len(sim), "literal_push0": len(HAND_ITEMS), "real_with_zero_push": len(real)}
